@@ -156,6 +156,180 @@ fn run_sp_case(c: &Case, model: &mut model::Model, rep: &mut Report, label: &str
     run_case_opts(&prefix, model, rep, label, false);
 }
 
+// ------------------------------------------------------------------------------------------
+// parent / child tables: referential actions change the CHILD table inside the savepoint span
+// ------------------------------------------------------------------------------------------
+
+fn all_bags(db: &Db) -> std::collections::BTreeMap<String, Vec<String>> {
+    let mut m = std::collections::BTreeMap::new();
+    for t in db.db.list_tables() {
+        let mut v: Vec<String> = db.scan(&t).unwrap_or_default().iter().map(|r| canon::row(r)).collect();
+        v.sort();
+        m.insert(t, v);
+    }
+    m
+}
+
+/// direct oracle only (the Lean model has one table): reference savepoint stack holding the
+/// contents of EVERY table at creation; ROLLBACK TO must restore all of them
+fn run_fk_sp_case(script: &[String], rep: &mut Report, label: &str) {
+    let mut db = Db::new();
+    let mut in_txn = false;
+    let mut stack: Vec<(String, std::collections::BTreeMap<String, Vec<String>>)> = vec![];
+    let mut child_changed_by_parent = 0u64;
+    let mut effective = 0u64;
+    for (k, sql) in script.iter().enumerate() {
+        let before = all_bags(&db);
+        let out = db.exec(sql);
+        let replay = || format!("{};\n", script[..=k].join(";\n"));
+        if out.is_panic() {
+            rep.fail(FailKind::Oracle, None, "engine panicked (foreign-key savepoint history)", &format!("{}-- {}", replay(), out.brief()));
+            break;
+        }
+        let after = all_bags(&db);
+        let up = sql.to_uppercase();
+        let ok = out.is_ok();
+        if ok && (up.starts_with("DELETE FROM P") || up.starts_with("UPDATE P")) && before.get("CH") != after.get("CH") {
+            child_changed_by_parent += 1;
+        }
+        if up == "BEGIN" {
+            if ok {
+                in_txn = true;
+                stack.clear();
+            }
+        } else if up == "COMMIT" || up == "ROLLBACK" {
+            if ok {
+                in_txn = false;
+                stack.clear();
+            }
+        } else if let Some(n) = up.strip_prefix("SAVEPOINT ") {
+            if ok != in_txn {
+                rep.fail(FailKind::Oracle, None, "SAVEPOINT must succeed exactly inside a transaction", &replay());
+                break;
+            }
+            if ok {
+                stack.push((n.to_string(), after.clone()));
+            }
+        } else if let Some(n) = up.strip_prefix("RELEASE SAVEPOINT ") {
+            let pos = stack.iter().rposition(|(x, _)| x == n);
+            if ok != (in_txn && pos.is_some()) || before != after {
+                rep.fail(FailKind::Oracle, None, "RELEASE SAVEPOINT must succeed exactly for a live savepoint and change no data", &format!("{}-- {}", replay(), out.brief()));
+                break;
+            }
+            if let (true, Some(p)) = (ok, pos) {
+                stack.remove(p);
+            }
+        } else if let Some(n) = up.strip_prefix("ROLLBACK TO SAVEPOINT ") {
+            rep.count("fk_rollback_to_ops");
+            let pos = stack.iter().rposition(|(x, _)| x == n);
+            match pos {
+                Some(p) if in_txn => {
+                    if before != stack[p].1 {
+                        effective += 1;
+                    }
+                    if !ok || after != stack[p].1 {
+                        let mut detail = String::new();
+                        for (t, want) in &stack[p].1 {
+                            if after.get(t) != Some(want) {
+                                detail.push_str(&format!("-- table {}: expected {:?}\n--          got      {:?}\n", t, want, after.get(t)));
+                            }
+                        }
+                        rep.fail(
+                            FailKind::Oracle,
+                            None,
+                            &format!("ROLLBACK TO SAVEPOINT did not restore every table to its contents at the savepoint ({})", label),
+                            &format!("{}-- result: {}\n{}", replay(), out.brief(), detail),
+                        );
+                        break;
+                    }
+                    stack.truncate(p + 1);
+                }
+                _ => {
+                    if ok {
+                        rep.fail(FailKind::Oracle, None, "ROLLBACK TO an unknown savepoint succeeded", &replay());
+                        break;
+                    }
+                }
+            }
+        }
+    }
+    rep.case(&script.join(";"), effective >= 1 && child_changed_by_parent >= 1);
+    rep.add("fk_child_changes_by_referential_action", child_changed_by_parent);
+    rep.count("fk_savepoint_cases");
+}
+
+const FK_ACTIONS: [&str; 8] = [
+    "ON DELETE CASCADE",
+    "ON DELETE SET NULL",
+    "ON DELETE SET DEFAULT",
+    "ON UPDATE CASCADE",
+    "ON UPDATE SET NULL",
+    "ON UPDATE SET DEFAULT",
+    "ON DELETE CASCADE ON UPDATE CASCADE",
+    "ON DELETE SET NULL ON UPDATE SET NULL",
+];
+
+fn fk_setup(action: &str) -> Vec<String> {
+    vec![
+        "CREATE TABLE p (id INT PRIMARY KEY, v INT)".to_string(),
+        format!("CREATE TABLE ch (id INT PRIMARY KEY, pid INT DEFAULT 1, w INT, FOREIGN KEY (pid) REFERENCES p(id) {})", action),
+        "CREATE INDEX chp ON ch (pid)".into(),
+        "INSERT INTO p VALUES (1, 0)".into(),
+        "INSERT INTO p VALUES (2, 1)".into(),
+        "INSERT INTO p VALUES (3, 2)".into(),
+        "INSERT INTO ch VALUES (10, 2, 5)".into(),
+        "INSERT INTO ch VALUES (11, 3, 5)".into(),
+        "INSERT INTO ch VALUES (12, 2, 6)".into(),
+    ]
+}
+
+fn gen_fk_sp_script(r: &mut Rng) -> Vec<String> {
+    let mut s = fk_setup(*r.pick(&FK_ACTIONS));
+    s.push("BEGIN".into());
+    let mut next_c = 100;
+    let names = ["a", "b", "c"];
+    let n = r.range(6, 18);
+    for i in 0..n {
+        let w = r.below(100);
+        let st = if i == 0 || w < 18 {
+            format!("SAVEPOINT {}", r.pick(&names))
+        } else if w < 30 {
+            format!("ROLLBACK TO SAVEPOINT {}", r.pick(&names))
+        } else if w < 45 {
+            format!("DELETE FROM p WHERE id = {}", r.range(2, 5))
+        } else if w < 60 {
+            format!("UPDATE p SET id = id + 10 WHERE id = {}", r.range(2, 5))
+        } else if w < 68 {
+            format!("INSERT INTO p VALUES ({}, {})", r.range(2, 6), r.range(0, 3))
+        } else if w < 82 {
+            next_c += 1;
+            let pid = if r.chance(1, 8) { "NULL".to_string() } else { r.range(1, 5).to_string() };
+            format!("INSERT INTO ch VALUES ({}, {}, {})", next_c, pid, r.range(0, 3))
+        } else if w < 88 {
+            format!("UPDATE ch SET w = {} WHERE pid = {}", r.range(0, 3), r.range(1, 5))
+        } else if w < 93 {
+            format!("DELETE FROM ch WHERE w = {}", r.range(0, 6))
+        } else if w < 96 {
+            format!("DELETE FROM p WHERE v = {}", r.range(0, 3))
+        } else {
+            format!("RELEASE SAVEPOINT {}", r.pick(&names))
+        };
+        s.push(st);
+    }
+    s.push(format!("ROLLBACK TO SAVEPOINT {}", r.pick(&names)));
+    s
+}
+
+fn fk_sp_probes() -> Vec<(String, Vec<String>)> {
+    let mut v = vec![];
+    for action in FK_ACTIONS {
+        let mut s = fk_setup(action);
+        s.extend(["BEGIN", "SAVEPOINT a", "UPDATE p SET id = 20 WHERE id = 2", "DELETE FROM p WHERE id = 3", "SAVEPOINT b", "INSERT INTO ch VALUES (13, 1, 7)", "ROLLBACK TO SAVEPOINT b", "ROLLBACK TO SAVEPOINT a", "COMMIT"].iter().map(|x| x.to_string()));
+        v.push((format!("fk {}", action), s));
+    }
+    v
+}
+
 fn v(i: i64) -> Val {
     Val::Int(i)
 }
@@ -203,7 +377,16 @@ fn main() {
         run_sp_case(&c, &mut model, &mut rep, name);
         rep.count("probe_cases");
     }
+    for (name, sc) in fk_sp_probes() {
+        run_fk_sp_case(&sc, &mut rep, &name);
+        rep.count("probe_cases");
+    }
     let mut rng = Rng::new(args.seed);
+    for _ in 0..args.n(250, 8000) {
+        let mut r = rng.fork();
+        let sc = gen_fk_sp_script(&mut r);
+        run_fk_sp_case(&sc, &mut rep, "generated");
+    }
     let n = args.n(450, 15000);
     for i in 0..n {
         let mut r = rng.fork();
